@@ -28,7 +28,8 @@ CONSTANTS OneWayT,      \* BOOLEAN: the session comes from a one-way pattern
           SmallBufs,    \* BOOLEAN: also try undersized buffers
           PayBase,      \* ordinary payloads are PayBase + j bytes long
           BigBudget,    \* sends with a maximum-size (65535-16) and an oversized (+1) payload per behaviour
-          EmitEdges     \* BOOLEAN
+          EmitEdges,    \* BOOLEAN
+          XN1, XN2, XN3, XN4 \* further nonce values 2^XN1 + XN2 and 2^XN3 + XN4 (seed-derived mid-range counters; XN1 = 0: none)
 
 VARIABLES pool,   \* messages written so far: [m, from, j]
           cnt,    \* counters: depth, sends per endpoint, budgets
@@ -47,9 +48,10 @@ TsInit(id) ==
    rs |-> <<"skip">>, rs_on |-> TRUE, pp |-> PPT, id |-> id]
 
 (* nonce values offered to explicit settings and to stateless calls *)
+ExtraNonces == IF XN1 = 0 THEN {} ELSE {<<"pow", XN1, XN2>>, <<"pow", XN3, XN4>>}
 NonceChoices ==
-  IF NonceMode = "top" THEN {NTop(2), NTop(1), NTop(0), NLo(0)}
-  ELSE {NLo(0), NLo(1), NLo(2), <<"pow", 32, 0>>, <<"pow", 32, 1>>, <<"pow", 63, 0>>}
+  (IF NonceMode = "top" THEN {NTop(2), NTop(1), NTop(0), NLo(0)}
+   ELSE {NLo(0), NLo(1), NLo(2), <<"pow", 32, 0>>, <<"pow", 32, 1>>, <<"pow", 63, 0>>}) \cup ExtraNonces
 
 PN == IF NonceMode = "top" THEN NTop(1) ELSE NLo(1)      \* the nonce of stateless probe / tag-only writes
 PLenT(j) == PayBase + j
